@@ -82,6 +82,10 @@ func e4step(state, input, output interface{}) (bool, interface{}) {
 			delete(st, in.Action)
 		case "satisfied":
 			return out.Bool == !st[in.Action], state
+		case "satisfied-now":
+			// asked with a grace period of 0: whatever is recorded has expired, the answer is "satisfied", and asking
+			// changes nothing (the record stays until Observe / the cleaner removes it)
+			return out.Bool, state
 		case "delete":
 			st = map[string]bool{}
 		case "get":
@@ -226,7 +230,7 @@ func e4History(rng *rand.Rand, hid string) (ops []porcupine.Operation, clients, 
 				switch in.Obj {
 				case "grace":
 					in.Action = graceActions[lr.Intn(len(graceActions))]
-					in.Op = []string{"expect", "observe", "satisfied", "satisfied", "get", "delete"}[lr.Intn(6)]
+					in.Op = []string{"expect", "observe", "satisfied", "satisfied", "get", "delete", "satisfied-now", "expect"}[lr.Intn(8)]
 					t0 = rec.now()
 					switch in.Op {
 					case "expect":
@@ -235,6 +239,8 @@ func e4History(rng *rand.Rand, hid string) (ops []porcupine.Operation, clients, 
 						ge.Observe(in.Key, grace.Action(in.Action))
 					case "satisfied":
 						out.Bool, _ = ge.SatisfiedExpectations(in.Key, grace.Action(in.Action), graceSecondsForever)
+					case "satisfied-now":
+						out.Bool, _ = ge.SatisfiedExpectations(in.Key, grace.Action(in.Action), 0)
 					case "get":
 						m := map[string]bool{}
 						for a := range ge.GetExpectations(in.Key) {
@@ -252,7 +258,7 @@ func e4History(rng *rand.Rand, hid string) (ops []porcupine.Operation, clients, 
 					// the other clients' traffic on their (look-alike) keys never changes this client's answers.
 					in.Key = fmt.Sprintf("%s#c%d", in.Key, c)
 					in.Action = graceActions[lr.Intn(len(graceActions))]
-					in.Op = []string{"run", "run", "run", "satisfied", "get", "observe"}[lr.Intn(6)]
+					in.Op = []string{"run", "run", "run", "satisfied", "get", "observe", "satisfied-now"}[lr.Intn(7)]
 					in.Modified = lr.Intn(3) == 0
 					t0 = rec.now()
 					switch in.Op {
@@ -262,6 +268,8 @@ func e4History(rng *rand.Rand, hid string) (ops []porcupine.Operation, clients, 
 						out.Bool = retry
 					case "satisfied":
 						out.Bool, _ = grace.DefaultGraceExpectations.SatisfiedExpectations(in.Key, grace.Action(in.Action), graceSecondsForever)
+					case "satisfied-now":
+						out.Bool, _ = grace.DefaultGraceExpectations.SatisfiedExpectations(in.Key, grace.Action(in.Action), 0)
 					case "get":
 						m := map[string]bool{}
 						for a := range grace.DefaultGraceExpectations.GetExpectations(in.Key) {
